@@ -43,11 +43,12 @@ def lifecycles(draw, tier):
         c["nh"], c["na"] = nh, na
         c["params"] = draw(gen.net_params(n, nh, na, [0.05, 0.5, 2.0]))
         c["zero_d"] = draw(st.booleans())
+        c["module_zero_weights"] = draw(st.booleans())      # the user's module was created with zero_weights=True (then given its parameters)
         if c["zero_d"] and na is not None:
             c["params"]["d"] = [0.0] * na
     ops = []
     for _ in range(draw(st.integers(1, 6))):
-        k = draw(st.sampled_from(["mutate_am", "mutate_ph", "reinit", "train", "train", "train_no_bases", "grad_slices", "poison_reinit"]))
+        k = draw(st.sampled_from(["mutate_am", "mutate_ph", "reinit", "train", "train", "train_no_bases", "grad_slices", "poison_reinit", "rbm_init_zero", "rbm_init_random"]))
         op = {"op": k}
         if k.startswith("mutate"):
             op["delta"] = draw(st.floats(0.5, 2.0, allow_nan=False, width=64))
@@ -125,7 +126,11 @@ def check(c):
         aux0 = torch.zeros(ena) if t == "density" else None
     else:
         nh, na = c["nh"], c["na"]
-        module = PurificationRBM(n, nh, na, gpu=False) if t == "density" else BinaryRBM(n, nh, gpu=False)
+        zkw = {"zero_weights": True} if c.get("module_zero_weights") else {}
+        module = PurificationRBM(n, nh, na, gpu=False, **zkw) if t == "density" else BinaryRBM(n, nh, gpu=False, **zkw)
+        if zkw:
+            Wm = module.weights_W if t == "density" else module.weights
+            require(bool((Wm == 0).all()) and all(bool((p_ == 0).all()) for p_ in module.parameters()), "module:zero_weights", "an RBM created with zero_weights=True has non-zero parameters")
         gen.set_net(module, c["params"])
         before = snap(module)
         mptrs = ptrs(module)
@@ -186,6 +191,23 @@ def check(c):
                 require(storage_disjoint(state.rbm_am, state.rbm_ph), "reinit:aliased-networks", "networks share storage after reinitialising")
             if t == "density":
                 aux0 = torch.zeros_like(state.rbm_ph.aux_bias)
+        elif k in ("rbm_init_zero", "rbm_init_random"):
+            # the networks' own public (re)initialiser called directly: all biases zero, weights all zero / freshly random, shapes kept
+            for net in state.networks:
+                rb = getattr(state, net)
+                old_ = snap(rb)
+                rb.initialize_parameters(zero_weights=True) if k == "rbm_init_zero" else rb.initialize_parameters()
+                for kk, v in snap(rb).items():
+                    require(tuple(v.shape) == tuple(old_[kk].shape), "rbm-init:shapes", f"{net}.{kk} changed shape in initialize_parameters")
+                    if "bias" in kk or k == "rbm_init_zero":
+                        require(bool((v == 0).all()), "rbm-init:not-zero", f"{net}.{kk} is not zero after initialize_parameters({'zero_weights=True' if k == 'rbm_init_zero' else ''})")
+                    else:
+                        require(not torch.equal(v, old_[kk]) and bool((v != 0).any()), "rbm-init:weights-not-redrawn", f"{net}.{kk} was not redrawn by initialize_parameters()")
+            if has_ph:
+                require(storage_disjoint(state.rbm_am, state.rbm_ph), "rbm-init:aliased-networks", "networks share storage after initialize_parameters")
+            if t == "density":
+                aux0 = torch.zeros_like(state.rbm_ph.aux_bias)
+            labels.append(k)
         elif k == "train":
             oc, oa = {"sgd": (torch.optim.SGD, {}), "sgd_mom_wd": (torch.optim.SGD, {"momentum": 0.9, "weight_decay": 0.01}), "adam": (torch.optim.Adam, {}),
                       "rmsprop": (torch.optim.RMSprop, {}), "adadelta": (torch.optim.Adadelta, {})}[op["opt"]]
